@@ -272,8 +272,8 @@ def run_op(col, op, casekey, detail):
     return changed
 
 
-def check_aliases(col, entry, comps, casekey):
-    """No nnx.Variable object may be shared between two different components."""
+def check_aliases(col, entry, comps, casekey, trained):
+    """No nnx.Variable object may be shared between a trained component and any other component."""
     ids = {}
     for r, o in comps.items():
         if isinstance(o, (Val, np.ndarray)):
@@ -281,10 +281,12 @@ def check_aliases(col, entry, comps, casekey):
         name = r.split(".")[0] if isinstance(o, Sub) else r  # the parts of one module are one component here
         ids[name] = {id(v) for v in variables(module_of(o))}
     for a, b in itertools.combinations(sorted(ids), 2):
+        if a not in trained and b not in trained:
+            continue  # two components that no routine trains (e.g. two targets) are outside the property
         col.tick(1, ("alias", entry, a, b) + casekey)
+        col.outcome("variable_sharing_pairs_tested")
         if ids[a] & ids[b]:
             col.violation(SIG.format(entry, K_SHARED.format(a, b)), dict(n_shared=len(ids[a] & ids[b])))
-    col.outcome("variable_sharing_pairs_tested", len(ids) * (len(ids) - 1) // 2)
 
 
 # ---------------------------------------------------------------------------------------------
@@ -1059,6 +1061,12 @@ READONLY = dict(
     pets=["gaussian_ensemble_loss", "GaussianMLPEnsemble.aggregate", "mpc_action", "evaluate_plans"],
     tab=["value_policy.greedy_policy", "value_policy.epsilon_greedy_policy"],
 )
+# components (world roles and prototype names) that some routine of the family trains
+TRAINED_ANY = dict(
+    dqn={"q"}, ddpg={"policy", "q"}, td3={"policy", "q"}, sac={"policy", "q", "entropy_coefficient"},
+    td7={"embedding", "actor", "critic"}, mrq={"encoder", "policy", "q", "pwe"}, ppo={"actor", "critic"},
+    pg={"policy", "vf", "value_function"}, pets={"model"}, tab=set(),
+)
 # updates that go through the un-decorated train_step_with_loss are explored jitted (as the loops ship it) and eager
 EAGER_UPDATES = dict(dqn=UPDATES["dqn"], ddpg=["update:critic"], td3=["update:critic", "update:critic_lap"], sac=["update:critic"])
 
@@ -1144,9 +1152,9 @@ def work(item, col):
                 for pk, pv in _PROTO.items():  # what the repo's constructor returned (modules and its own optimizers) ...
                     if pk not in seen:
                         check_aliases(col, creator, {k.lstrip("_"): v for k, v in pv.items() if isinstance(v, nnx.Pytree)},
-                                      (tuple(ps), optk, tuple(hid), "proto") + tuple(map(str, pk)))
+                                      (tuple(ps), optk, tuple(hid), "proto") + tuple(map(str, pk)), TRAINED_ANY[fam])
                         seen.add(pk)
-                check_aliases(col, creator, comps, (tuple(ps), optk, tuple(hid), fam))  # ... and the world the calls run on
+                check_aliases(col, creator, comps, (tuple(ps), optk, tuple(hid), fam), TRAINED_ANY[fam])  # ... and the world the calls run on
             seen.add(case.get("space", ""))
             # read-only calls do not depend on the optimizer kind / call mode: explored in the sgd+jit items only
             for name in READONLY[fam] if optk == "sgd" else []:
